@@ -8,5 +8,5 @@ git -C /repo worktree add --detach "$WT" HEAD >/dev/null 2>&1
 cd "$WT"; git apply "$SEED/patch.diff" || { echo "patch does not apply"; exit 0; }
 for P in "$@"; do
   OUT=$(GOAVC_REPO="$WT" /verif/bin/goavc check --property $P 2>&1); EC=$?
-  echo "$(basename $(dirname $SEED/x)) $P exit=$EC $(echo "$OUT" | grep 'failed obligation' | sed 's/.*failed obligation \([^ ]*\).*/\1/' | tr '\n' ',')"
+  echo "$(basename $(dirname $SEED/x)) $P exit=$EC bounded=$(echo "$OUT" | grep -c '^BOUNDED:') $(echo "$OUT" | grep 'failed obligation' | sed 's/.*failed obligation \([^ ]*\).*/\1/' | tr '\n' ',')"
 done
